@@ -1,5 +1,6 @@
 import QcelVerif.Model.Kabsch
 import QcelVerif.Model.B787
+import QcelVerif.Model.UnoOrderings
 import QcelVerif.Lib.Proto
 /-!
 Line-protocol driver for the C12 models (all numbers are exact rationals `p/q`).
@@ -11,6 +12,13 @@ Line-protocol driver for the C12 models (all numbers are exact rationals `p/q`).
     the proved certificate checker `isTopEig`.
 * `B|runMirror|superimposable|runToCompletion|aconv|plain,mir;plain,mir;…`   the trial loop
 * `P|rtol|atol|ref|cur|RR|CC`   permutative candidate orderings
+* `U|cut|k|red|cost|pairs`   one class of the `hungarian_uno` search (align.py:375-400): `red` = the k×k reduced matrix
+    the solver returned, `cost` = the k×k matrix it was handed, `pairs` = its assignment `r,c;r,c;…`.  Answer: the
+    zero-edge list (`np.argwhere(red < cut)`), ALL perfect matchings of that graph (`Uno.matchings`, each as the
+    rows matched to columns 0..k-1) and C14's exact optimality gap `Assign.certGap` of the solver's answer.
+* `O|cut|ref|cur|red#red#…`   the candidate atom orderings of `_plausible_atom_orderings(…, 'hungarian_uno')`
+    from the per-class reduced matrices (classes in order of first appearance in `ref`)
+* `M|ref|cur|RRnre|CCnre`   the per-class cost matrices `classCost` (exact) from the reciprocal-distance matrices
 -/
 open QcelVerif QcelVerif.Proto QcelVerif.Kabsch
 
@@ -91,11 +99,78 @@ def stepP (f : List String) : String :=
     | _, _, _, _, _, _ => "bad-op"
   | _ => "bad-op"
 
+def showMat (k : Nat) (m : Uno.Mat) : String :=
+  ";".intercalate ((List.range k).map fun i => " ".intercalate ((List.range k).map fun j => showRat (m i j)))
+
+def parsePair? (s : String) : Option (Nat × Nat) :=
+  match splitOnChar s ',' with
+  | [a, b] => do
+    let a ← parseNat? a
+    let b ← parseNat? b
+    pure (a, b)
+  | _ => none
+
+def stepU (f : List String) : String :=
+  match f with
+  | [cut, k, red, cost, prs] =>
+    match parseRat? cut, parseNat? k, parseMat? red, parseMat? cost, (splitNonEmpty prs ';').mapM parsePair? with
+    | some cut, some k, some red, some cost, some prs =>
+      if !(Uno.isSquare k red) || !(Uno.isSquare k cost) then "bad-op" else
+      let r := Uno.matOf red
+      let c := Uno.matOf cost
+      let edges := Uno.zeroEdges k r cut
+      let ms := Uno.matchings k (Uno.edgeB r cut)
+      let gap := match Assign.certGap k k c r prs with
+        | some g => showRat g
+        | none => "notassign"
+      s!"ok edges={";".intercalate (edges.map fun e => s!"{e.1},{e.2}")} m={";".intercalate (ms.map showNatList)} gap={gap}"
+    | _, _, _, _, _ => "bad-op"
+  | _ => "bad-op"
+
+def classSizes (rf : List Nat) : List Nat := (B787.firstSeen rf).map fun k => (B787.positions k rf).length
+
+def stepO (f : List String) : String :=
+  match f with
+  | [cut, rf, cu, reds] =>
+    match parseRat? cut, parseNatList? rf ' ', parseNatList? cu ' ', (splitOnChar reds '#').mapM parseMat? with
+    | some cut, some rf, some cu, some reds =>
+      let sizes := classSizes rf
+      if rf.length != cu.length then "bad-op"
+      else if rf.isPerm cu && (reds.length != sizes.length || !((sizes.zip reds).all fun kr => Uno.isSquare kr.1 kr.2)) then "bad-op"
+      else
+      match Uno.candidatesUno cut rf cu (reds.map Uno.matOf) with
+      | .ok l => "ok " ++ ";".intercalate (l.map showNatList)
+      | .error .validation => "err validation"
+      | .error .noSolution => "err noSolution"
+    | _, _, _, _ => "bad-op"
+  | _ => "bad-op"
+
+def stepM (f : List String) : String :=
+  match f with
+  | [rf, cu, rr, cc] =>
+    match parseNatList? rf ' ', parseNatList? cu ' ', parseMat? rr, parseMat? cc with
+    | some rf, some cu, some rr, some cc =>
+      let n := rf.length
+      if cu.length != n || !(Uno.isSquare n rr) || !(Uno.isSquare n cc) then "bad-op"
+      else if !(rf.isPerm cu) then "err validation"
+      else
+        let nR := Uno.matOf rr
+        let nC := Uno.matOf cc
+        "ok " ++ "#".intercalate ((B787.firstSeen rf).map fun k =>
+          let rgp := B787.positions k rf
+          let cgp := B787.positions k cu
+          showMat rgp.length (Uno.classCost nR nC rgp cgp))
+    | _, _, _, _ => "bad-op"
+  | _ => "bad-op"
+
 def stepC12 (line : String) : String :=
   match splitOnChar line '|' with
   | "K" :: f => stepK f
   | "B" :: f => stepB f
   | "P" :: f => stepP f
+  | "U" :: f => stepU f
+  | "O" :: f => stepO f
+  | "M" :: f => stepM f
   | _ => "bad-op"
 
 def main : IO Unit := mainLoop stepC12
